@@ -189,4 +189,708 @@ theorem decProv_false (dec : β → Option α) (size : α → Nat) (m : Nat) (w 
           (fun p => if w.block then { p with blocked := true } else p) := by
   simp [decProv, hd]
 
+/-! ### any history: re-assigned keys included -/
+
+theorem mem_assign {k : κ} {c : α} : ∀ {l : List (κ × α)} {e : κ × α}, e ∈ assign k c l → e = (k, c) ∨ e ∈ l
+  | [], e, h => by
+    simp only [assign, List.mem_singleton] at h
+    exact Or.inl h
+  | (k', c') :: t, e, h => by
+    simp only [assign] at h
+    split at h
+    · rw [List.mem_cons] at h
+      rcases h with h | h
+      · exact Or.inl h
+      · exact Or.inr (List.mem_cons_of_mem _ h)
+    · rw [List.mem_cons] at h
+      rcases h with h | h
+      · exact Or.inr (h ▸ List.mem_cons_self)
+      · rcases mem_assign h with h | h
+        · exact Or.inl h
+        · exact Or.inr (List.mem_cons_of_mem _ h)
+
+/-- assigning an existing key keeps the keys (and their order) -/
+theorem keys_assign_of_mem {k : κ} {c : α} : ∀ {l : List (κ × α)}, k ∈ keys l → keys (assign k c l) = keys l
+  | [], h => by cases h
+  | (k', c') :: t, h => by
+    simp only [assign]
+    split
+    · rename_i hk; subst hk; rfl
+    · rename_i hk
+      rw [keys_cons, List.mem_cons] at h
+      have : k ∈ keys t := h.resolve_left fun e => hk e.symm
+      rw [keys_cons, keys_cons, keys_assign_of_mem this]
+
+/-- a dict assignment keeps the keys distinct -/
+theorem nodup_assign {k : κ} {c : α} {l : List (κ × α)} (h : (keys l).Nodup) : (keys (assign k c l)).Nodup := by
+  by_cases hk : k ∈ keys l
+  · rw [keys_assign_of_mem hk]; exact h
+  · rw [assign_of_not_mem k c l hk, keys_append]; exact nodup_snoc h hk
+
+theorem inv_new (size : α → Nat) (m : Nat) (offset : Int) (name : String) (d : α) :
+    Inv size (Prov.new size m offset name d : Prov κ α) :=
+  ⟨List.nodup_nil, Nat.le_refl _, fun _ h => nomatch h⟩
+
+/-- every call keeps `Inv` -/
+theorem step_inv {size : α → Nat} {p q : Prov κ α} {o : Op κ α} (hi : Inv size p)
+    (hs : step size p o = some q) : Inv size q := by
+  cases o with
+  | block =>
+    simp only [step, Option.some.injEq] at hs
+    subst hs; exact ⟨hi.nodup, hi.defLe, hi.mapLe⟩
+  | add k c =>
+    simp only [step] at hs
+    split at hs
+    · split at hs
+      · rename_i hsz
+        simp only [Option.some.injEq] at hs
+        subst hs
+        refine ⟨nodup_assign hi.nodup, hi.defLe, ?_⟩
+        intro e he
+        rcases mem_assign he with he | he
+        · subst he; exact Nat.le_of_eq hsz
+        · exact hi.mapLe e he
+      · cases hs
+    · simp only [Option.some.injEq] at hs
+      subst hs
+      refine ⟨nodup_assign hi.nodup, Nat.le_trans hi.defLe (Nat.le_max_left _ _), ?_⟩
+      intro e he
+      rcases mem_assign he with he | he
+      · subst he; exact Nat.le_max_right _ _
+      · exact Nat.le_trans (hi.mapLe e he) (Nat.le_max_left _ _)
+
+/-- every history keeps `Inv` -/
+theorem runOps_inv (size : α → Nat) :
+    ∀ (ops : List (Op κ α)) (p q : Prov κ α), Inv size p → runOps size p ops = some q → Inv size q
+  | [], p, q, hi, h => by
+    simp only [runOps, Option.some.injEq] at h
+    subst h; exact hi
+  | o :: t, p, q, hi, h => by
+    cases hs : step size p o with
+    | none => simp [runOps, hs] at h
+    | some p' =>
+      have h' : runOps size p' t = some q := by simpa [runOps, hs] using h
+      exact runOps_inv size t p' q (step_inv hi hs) h'
+
+/-- every provider state reachable from the constructor, by any history of calls, satisfies `Inv` -/
+theorem reachable_inv (size : α → Nat) (m : Nat) (offset : Int) (name : String) (d : α)
+    (ops : List (Op κ α)) (p : Prov κ α) (h : runOps size (Prov.new size m offset name d) ops = some p) :
+    Inv size p :=
+  runOps_inv size ops _ p (inv_new size m offset name d) h
+
+theorem foldl_max_spec (size : α → Nat) : ∀ (l : List (κ × α)) (M0 : Nat),
+    M0 ≤ l.foldl (fun M e => max M (size e.2)) M0 ∧
+    (∀ e ∈ l, size e.2 ≤ l.foldl (fun M e => max M (size e.2)) M0) ∧
+    (l.foldl (fun M e => max M (size e.2)) M0 = M0 ∨ ∃ e ∈ l, size e.2 = l.foldl (fun M e => max M (size e.2)) M0)
+  | [], M0 => ⟨Nat.le_refl _, (fun _ h => nomatch h), Or.inl rfl⟩
+  | e :: t, M0 => by
+    obtain ⟨h1, h2, h3⟩ := foldl_max_spec size t (max M0 (size e.2))
+    simp only [List.foldl_cons]
+    refine ⟨Nat.le_trans (Nat.le_max_left _ _) h1, ?_, ?_⟩
+    · intro e' he'
+      rw [List.mem_cons] at he'
+      rcases he' with he' | he'
+      · subst he'; exact Nat.le_trans (Nat.le_max_right _ _) h1
+      · exact h2 e' he'
+    · rcases h3 with h3 | ⟨e', he', hs⟩
+      · rw [h3]
+        by_cases hc : size e.2 ≤ M0
+        · exact Or.inl (Nat.max_eq_left hc)
+        · exact Or.inr ⟨e, List.mem_cons_self, (Nat.max_eq_right (Nat.le_of_lt (Nat.lt_of_not_le hc))).symm⟩
+      · exact Or.inr ⟨e', List.mem_cons_of_mem _ he', hs⟩
+
+/-- `trueMax` is the maximum -/
+theorem trueMax_isMax (size : α → Nat) (d : α) (l : List (κ × α)) : IsMax size d l (trueMax size d l) := by
+  obtain ⟨h1, h2, h3⟩ := foldl_max_spec size l (size d)
+  exact ⟨h1, h2, h3⟩
+
+theorem isMax_iff_eq_trueMax {size : α → Nat} {d : α} {l : List (κ × α)} {M : Nat} :
+    IsMax size d l M ↔ M = trueMax size d l :=
+  ⟨fun h => isMax_unique h (trueMax_isMax size d l) fun _ => Iff.rfl, fun h => h ▸ trueMax_isMax size d l⟩
+
+theorem trueMax_perm (size : α → Nat) (d : α) {l l' : List (κ × α)} (h : l.Perm l') :
+    trueMax size d l = trueMax size d l' :=
+  isMax_unique (trueMax_isMax size d l) (trueMax_isMax size d l') fun _ => h.mem_iff
+
+/-- the stored maximal size is never below the true one -/
+theorem trueMax_le_of_inv {size : α → Nat} {p : Prov κ α} (hi : Inv size p) :
+    trueMax size p.default p.map ≤ p.maxSize := by
+  obtain ⟨_, _, h3⟩ := trueMax_isMax size p.default p.map
+  rcases h3 with h3 | ⟨e, he, hs⟩
+  · rw [h3]; exact hi.defLe
+  · rw [← hs]; exact hi.mapLe e he
+
+/-- `config_modes` only depends on the stored maximal size through the number of modes and, for a negative
+offset, the first mode -/
+theorem configModes_eq_iff (offset : Int) (M M' : Nat) (first last : Int) :
+    configModes offset M first last = configModes offset M' first last ↔ M = M' := by
+  unfold configModes
+  constructor
+  · intro h
+    split at h
+    · exact (Prod.mk.injEq .. ▸ h).2
+    · exact (Prod.mk.injEq .. ▸ h).2
+  · intro h; subst h; rfl
+
+/-- ANY history: the reader never raises; it returns the same name (default-name rule), offset, default circuit,
+flag and entries, and the TRUE maximum as maximal size — whatever the stored one was.  The rebuilt provider is
+`Good`; it is the original one iff the stored maximal size was still attained. -/
+theorem roundtrip_provider_any (size : α → Nat) (enc : α → β) (dec : β → Option α) (p : Prov κ α)
+    (hi : Inv size p) (hdef : dec (enc p.default) = some p.default)
+    (hpay : ∀ e ∈ p.map, dec (enc e.2) = some e.2) (wire : List (κ × α)) (hw : wire.Perm p.map) :
+    ∃ q, decProv dec size false p.m (encProv enc p wire) = some q ∧
+      q.m = p.m ∧ q.offset = p.offset ∧ q.name = (if p.name = "" then "FFC" else p.name) ∧
+      q.default = p.default ∧ q.blocked = p.blocked ∧ q.map = wire ∧ q.map.Perm p.map ∧
+      q.maxSize = trueMax size p.default p.map ∧ q.maxSize ≤ p.maxSize ∧
+      (q.maxSize = p.maxSize ↔ IsMax size p.default p.map p.maxSize) ∧ Good size q := by
+  have hnd : (keys wire).Nodup := ((hw.map Prod.fst).nodup_iff).2 hi.nodup
+  obtain ⟨q, hq, hqm, hqb, h1, h2, h3, h4, h5⟩ :=
+    readAll_unblocked (size := size) (enc := enc) (dec := dec) wire
+      (Prov.new size p.m p.offset (if p.name = "" then "FFC" else p.name) p.default) rfl
+      (fun e he => hpay e (hw.mem_iff.1 he)) hnd (fun _ _ hk => nomatch hk) (isMax_new size p.default)
+  have hqm' : q.map = wire := by rw [hqm]; rfl
+  have hmax : q.maxSize = trueMax size p.default p.map := by
+    have := isMax_iff_eq_trueMax.1 h5
+    rw [this, h4, hqm']; exact trueMax_perm size p.default hw
+  have hle : q.maxSize ≤ p.maxSize := hmax ▸ trueMax_le_of_inv hi
+  have hiff : q.maxSize = p.maxSize ↔ IsMax size p.default p.map p.maxSize := by
+    rw [isMax_iff_eq_trueMax, hmax]; exact eq_comm
+  have hnd' : (keys q.map).Nodup := hqm' ▸ hnd
+  refine ⟨if p.blocked then { q with blocked := true } else q, ?_, ?_⟩
+  · rw [decProv_false dec size p.m (encProv enc p wire) p.default hdef]
+    show (readAll dec size (Prov.new size p.m p.offset (if p.name = "" then "FFC" else p.name) p.default)
+      (wire.map fun e => (e.1, enc e.2))).map (fun q => if p.blocked then { q with blocked := true } else q) = _
+    rw [hq]; rfl
+  · cases hb : p.blocked
+    · simp only [Bool.false_eq_true, if_false]
+      exact ⟨h1, h2, h3, h4, hqb, hqm', hqm' ▸ hw, hmax, hle, hiff, ⟨h5, hnd'⟩⟩
+    · simp only [if_true]
+      exact ⟨h1, h2, h3, h4, trivial, hqm', hqm' ▸ hw, hmax, hle, hiff, ⟨h5, hnd'⟩⟩
+
+/-- …consequently `config_modes` of the rebuilt provider equals the original one iff the stored maximal
+size was still attained (otherwise fewer modes and, for a negative offset, a first mode further down). -/
+theorem roundtrip_provider_any_configModes (size : α → Nat) (enc : α → β) (dec : β → Option α) (p : Prov κ α)
+    (hi : Inv size p) (hdef : dec (enc p.default) = some p.default)
+    (hpay : ∀ e ∈ p.map, dec (enc e.2) = some e.2) (wire : List (κ × α)) (hw : wire.Perm p.map)
+    (q : Prov κ α) (hq : decProv dec size false p.m (encProv enc p wire) = some q) (first last : Int) :
+    configModes q.offset q.maxSize first last = configModes p.offset p.maxSize first last ↔
+      IsMax size p.default p.map p.maxSize := by
+  obtain ⟨q', hq', _, ho, _, _, _, _, _, _, _, hiff, _⟩ := roundtrip_provider_any size enc dec p hi hdef hpay wire hw
+  rw [hq] at hq'
+  cases hq'
+  rw [ho, configModes_eq_iff]; exact hiff
+
+/-- the round trip is idempotent: serialising the rebuilt provider again and reading it back returns it
+(up to the order of the dict) — one trip normalises the maximal size. -/
+theorem roundtrip_provider_second (size : α → Nat) (enc : α → β) (dec : β → Option α) (p : Prov κ α)
+    (hi : Inv size p) (hdef : dec (enc p.default) = some p.default)
+    (hpay : ∀ e ∈ p.map, dec (enc e.2) = some e.2) (wire : List (κ × α)) (hw : wire.Perm p.map)
+    (q : Prov κ α) (hq : decProv dec size false p.m (encProv enc p wire) = some q)
+    (wire' : List (κ × α)) (hw' : wire'.Perm q.map) :
+    ∃ r, decProv dec size false q.m (encProv enc q wire') = some r ∧ Equiv r q := by
+  obtain ⟨q', hq', _, _, hn, hd, _, _, hm, _, _, _, hg⟩ := roundtrip_provider_any size enc dec p hi hdef hpay wire hw
+  rw [hq] at hq'
+  cases hq'
+  have hname : q.name ≠ "" := by
+    rw [hn]; split
+    · decide
+    · assumption
+  -- the existing theorem for `Good` objects (Props/C15.lean `FF.roundtrip_provider`), re-proved here from `…_any`
+  obtain ⟨r, hr, h1, h2, h3, h4, h5, _, h7, h8, _, h10, _⟩ :=
+    roundtrip_provider_any size enc dec q ⟨hg.nodup, hg.isMax.1, hg.isMax.2.1⟩ (hd ▸ hdef)
+      (fun e he => hpay e (hm.mem_iff.1 he)) wire' hw'
+  refine ⟨r, hr, h1, h2, ?_, h4, ?_, h5, h7⟩
+  · rw [h3, if_neg hname]
+  · exact h10.2 hg.isMax
+
 end PM.C15.FF
+
+/-! ## feed-forward configurators (`FFConfigurator`) -/
+
+namespace PM.C15.FFC
+
+open PM.C15.FF (assign keys keys_cons keys_append keys_nil assign_of_not_mem)
+
+variable {κ γ δ V : Type} [DecidableEq κ]
+
+/-! ### pair lists -/
+
+/-- in a dict (distinct first components) a key has one value -/
+theorem eq_of_mem_of_nodup {A B : Type} : ∀ {l : List (A × B)} {a : A} {b b' : B},
+    (l.map Prod.fst).Nodup → (a, b) ∈ l → (a, b') ∈ l → b = b'
+  | [], _, _, _, _, h, _ => nomatch h
+  | e :: t, a, b, b', hn, h, h' => by
+    rw [List.map_cons, List.nodup_cons] at hn
+    rw [List.mem_cons] at h h'
+    rcases h with h | h <;> rcases h' with h' | h'
+    · have := h.trans h'.symm
+      exact (Prod.mk.injEq .. ▸ this).2
+    · exact absurd (List.mem_map.2 ⟨(a, b'), h', rfl⟩) (by rw [← h] at hn; exact hn.1)
+    · exact absurd (List.mem_map.2 ⟨(a, b), h, rfl⟩) (by rw [← h'] at hn; exact hn.1)
+    · exact eq_of_mem_of_nodup hn.2 h h'
+
+/-- a list without repetition that is contained in a list that is not longer covers it -/
+theorem subset_of_nodup_of_length_le {A : Type} [DecidableEq A] : ∀ {l₁ l₂ : List A},
+    l₁.Nodup → (∀ a ∈ l₁, a ∈ l₂) → l₂.length ≤ l₁.length → ∀ b ∈ l₂, b ∈ l₁
+  | [], l₂, _, _, hl, b, hb => by
+    have : l₂ = [] := List.eq_nil_of_length_eq_zero (Nat.le_zero.1 hl)
+    subst this; cases hb
+  | a :: t, l₂, hn, hs, hl, b, hb => by
+    rw [List.nodup_cons] at hn
+    have ha : a ∈ l₂ := hs a List.mem_cons_self
+    by_cases hba : b = a
+    · subst hba; exact List.mem_cons_self
+    · refine List.mem_cons_of_mem _ (subset_of_nodup_of_length_le (l₂ := l₂.erase a) hn.2 ?_ ?_ b ?_)
+      · intro c hc
+        have hca : c ≠ a := fun e => hn.1 (e ▸ hc)
+        exact (List.mem_erase_of_ne hca).2 (hs c (List.mem_cons_of_mem _ hc))
+      · rw [List.length_erase_of_mem ha]
+        simp only [List.length_cons] at hl
+        omega
+      · exact (List.mem_erase_of_ne hba).2 hb
+
+/-! ### tables -/
+
+@[simp] theorem names_mapT (f : V → V) (t : Table V) : names (mapT f t) = names t := by
+  simp [names, mapT, List.map_map, Function.comp_def]
+
+@[simp] theorem length_mapT (f : V → V) (t : Table V) : (mapT f t).length = t.length := by
+  simp [mapT]
+
+@[simp] theorem keys_mapC (f : V → V) (l : List (κ × Table V)) : keys (mapC f l) = keys l := by
+  simp [keys, mapC, List.map_map, Function.comp_def]
+
+theorem mapT_id (t : Table V) : mapT (fun v => v) t = t := by
+  simp [mapT]
+
+theorem mapC_id (l : List (κ × Table V)) : mapC (fun v => v) l = l := by
+  simp [mapC, mapT_id]
+
+theorem mapT_congr {f g : V → V} {t : Table V} (h : ∀ e ∈ t, f e.2 = g e.2) : mapT f t = mapT g t := by
+  simp only [mapT]
+  exact List.map_congr_left fun e he => by rw [h e he]
+
+theorem mapC_congr {f g : V → V} {l : List (κ × Table V)} (h : ∀ c ∈ l, ∀ e ∈ c.2, f e.2 = g e.2) :
+    mapC f l = mapC g l := by
+  simp only [mapC]
+  exact List.map_congr_left fun c hc => by rw [mapT_congr (h c hc)]
+
+theorem checkConfig_ok_iff (linked : List String) (t : Table V) :
+    checkConfig linked t = .ok () ↔ t.length = linked.length ∧ ∀ n ∈ names t, n ∈ linked := by
+  unfold checkConfig
+  by_cases hl : t.length = linked.length
+  · simp only [hl, ne_eq, not_true_eq_false, if_false, true_and]
+    cases hf : (names t).find? (fun n => !linked.contains n) with
+    | none =>
+      simp only [true_iff]
+      intro n hn
+      have := List.find?_eq_none.1 hf n hn
+      simpa using this
+    | some n =>
+      simp only [reduceCtorEq, false_iff]
+      intro hall
+      have h1 := List.find?_some hf
+      have h2 := hall n (List.mem_of_find?_eq_some hf)
+      simp [h2] at h1
+  · simp [hl]
+
+theorem assignAll_ok_iff (free : List String) (t : Table V) :
+    assignAll free t = .ok () ↔ ∀ n ∈ names t, n ∈ free := by
+  unfold assignAll
+  cases hf : (names t).find? (fun n => !free.contains n) with
+  | none =>
+    simp only [true_iff]
+    intro n hn
+    have := List.find?_eq_none.1 hf n hn
+    simpa using this
+  | some n =>
+    simp only [reduceCtorEq, false_iff]
+    intro hall
+    have h1 := List.find?_some hf
+    have h2 := hall n (List.mem_of_find?_eq_some hf)
+    simp [h2] at h1
+
+/-- `assign` raises `KeyError` for a name of the table that is not a variable of the copy -/
+theorem assignAll_error {free : List String} {t : Table V} (h : ∃ n ∈ names t, n ∉ free) :
+    ∃ n, n ∈ names t ∧ n ∉ free ∧ assignAll free t = .error (.key n) := by
+  unfold assignAll
+  cases hf : (names t).find? (fun n => !free.contains n) with
+  | none =>
+    obtain ⟨n, hn, hnf⟩ := h
+    have := List.find?_eq_none.1 hf n hn
+    simp [hnf] at this
+  | some n =>
+    refine ⟨n, List.mem_of_find?_eq_some hf, ?_, rfl⟩
+    have h1 := List.find?_some hf
+    simpa using h1
+
+/-! ### wire orders -/
+
+theorem TablesMatch.refl : ∀ (l : List (κ × Table V)), TablesMatch l l
+  | [] => trivial
+  | _ :: t => ⟨rfl, List.Perm.refl _, TablesMatch.refl t⟩
+
+theorem TablesMatch.keys_eq : ∀ {a l : List (κ × Table V)}, TablesMatch a l → keys a = keys l
+  | [], [], _ => rfl
+  | [], _ :: _, h => nomatch h
+  | _ :: _, [], h => nomatch h
+  | _ :: _, _ :: _, h => by
+    rw [keys_cons, keys_cons, h.1, TablesMatch.keys_eq h.2.2]
+
+theorem TablesMatch.left : ∀ {a l : List (κ × Table V)}, TablesMatch a l →
+    ∀ e ∈ a, ∃ f ∈ l, e.1 = f.1 ∧ e.2.Perm f.2
+  | [], _, _, _, he => nomatch he
+  | _ :: _, [], h, _, _ => nomatch h
+  | e :: a, f :: l, h, e', he' => by
+    rw [List.mem_cons] at he'
+    rcases he' with he' | he'
+    · subst he'; exact ⟨f, List.mem_cons_self, h.1, h.2.1⟩
+    · obtain ⟨f', hf', h'⟩ := TablesMatch.left h.2.2 e' he'
+      exact ⟨f', List.mem_cons_of_mem _ hf', h'⟩
+
+theorem TablesMatch.right : ∀ {a l : List (κ × Table V)}, TablesMatch a l →
+    ∀ f ∈ l, ∃ e ∈ a, e.1 = f.1 ∧ e.2.Perm f.2
+  | _, [], _, _, hf => nomatch hf
+  | [], _ :: _, h, _, _ => nomatch h
+  | e :: a, f :: l, h, f', hf' => by
+    rw [List.mem_cons] at hf'
+    rcases hf' with hf' | hf'
+    · subst hf'; exact ⟨e, List.mem_cons_self, h.1, h.2.1⟩
+    · obtain ⟨e', he', h'⟩ := TablesMatch.right h.2.2 f' hf'
+      exact ⟨e', List.mem_cons_of_mem _ he', h'⟩
+
+theorem TablesMatch.mapC (f : V → V) : ∀ {a l : List (κ × Table V)}, TablesMatch a l →
+    TablesMatch (mapC f a) (mapC f l)
+  | [], [], _ => trivial
+  | [], _ :: _, h => nomatch h
+  | _ :: _, [], h => nomatch h
+  | _ :: _, _ :: _, h => ⟨h.1, h.2.1.map _, TablesMatch.mapC f h.2.2⟩
+
+theorem CfgPerm.refl (l : List (κ × Table V)) : CfgPerm l l := ⟨l, List.Perm.refl _, TablesMatch.refl l⟩
+
+theorem CfgPerm.of_perm {a b : List (κ × Table V)} (h : a.Perm b) : CfgPerm a b := ⟨a, h, TablesMatch.refl a⟩
+
+theorem CfgPerm.keys_perm {a b : List (κ × Table V)} (h : CfgPerm a b) : (keys a).Perm (keys b) := by
+  obtain ⟨l, hl, hm⟩ := h
+  rw [hm.keys_eq]; exact hl.map _
+
+theorem CfgPerm.left {a b : List (κ × Table V)} (h : CfgPerm a b) :
+    ∀ e ∈ a, ∃ f ∈ b, e.1 = f.1 ∧ e.2.Perm f.2 := by
+  obtain ⟨l, hl, hm⟩ := h
+  intro e he
+  obtain ⟨f, hf, h'⟩ := hm.left e he
+  exact ⟨f, hl.mem_iff.1 hf, h'⟩
+
+theorem CfgPerm.right {a b : List (κ × Table V)} (h : CfgPerm a b) :
+    ∀ f ∈ b, ∃ e ∈ a, e.1 = f.1 ∧ e.2.Perm f.2 := by
+  obtain ⟨l, hl, hm⟩ := h
+  intro f hf
+  exact hm.right f (hl.mem_iff.2 hf)
+
+theorem CfgPerm.mapC (f : V → V) {a b : List (κ × Table V)} (h : CfgPerm a b) :
+    CfgPerm (mapC f a) (mapC f b) := by
+  obtain ⟨l, hl, hm⟩ := h
+  exact ⟨FFC.mapC f l, hl.map _, hm.mapC f⟩
+
+/-- a table with distinct names that is a permutation of its own image under `rnd` holds fixed points only -/
+theorem fixed_of_mapT_perm {rnd : V → V} {t : Table V} (hn : (names t).Nodup) (h : (mapT rnd t).Perm t) :
+    ∀ e ∈ t, rnd e.2 = e.2 := by
+  intro e he
+  have h1 : (e.1, rnd e.2) ∈ mapT rnd t := List.mem_map.2 ⟨e, he, rfl⟩
+  have h2 : (e.1, rnd e.2) ∈ t := h.mem_iff.1 h1
+  exact eq_of_mem_of_nodup hn h2 he
+
+/-! ### the calls -/
+
+/-- reading entries with new distinct keys, each accepted by `_check_configuration`, appends them -/
+theorem readAll_ok {ksize : κ → Nat} : ∀ (wc : List (κ × Table V)) (x : Cfgr κ γ V),
+    (∀ e ∈ wc, checkConfig x.linked e.2 = .ok () ∧ ksize e.1 = x.m) → (keys wc).Nodup →
+    (∀ k ∈ keys wc, k ∉ keys x.configs) →
+    readAll ksize x wc = .ok { x with configs := x.configs ++ wc }
+  | [], x, _, _, _ => by simp [readAll]
+  | (k, t) :: rest, x, hok, hn, hk => by
+    have h0 := hok (k, t) List.mem_cons_self
+    have hk0 : k ∉ keys x.configs := hk k (by simp)
+    rw [keys_cons, List.nodup_cons] at hn
+    have hs : step ksize x (.add k t) = .ok { x with configs := x.configs ++ [(k, t)] } := by
+      simp only [step, h0.2, ne_eq, not_true_eq_false, if_false, h0.1, Except.bind,
+        assign_of_not_mem k t x.configs hk0]
+    have hk' : ∀ k' ∈ keys rest, k' ∉ keys (x.configs ++ [(k, t)]) := by
+      intro k' hk'
+      rw [keys_append, List.mem_append, not_or]
+      refine ⟨hk k' (by simp [hk']), ?_⟩
+      intro hmem
+      have : k' = k := by simpa using hmem
+      subst this
+      exact hn.1 hk'
+    have ih := readAll_ok (ksize := ksize) rest { x with configs := x.configs ++ [(k, t)] }
+      (fun e he => hok e (List.mem_cons_of_mem _ he)) hn.2 hk'
+    simp only [readAll, hs, Except.bind, ih, List.append_assoc, List.singleton_append]
+
+/-- the constructor establishes `Valid` (tables are dicts: distinct names) -/
+theorem valid_new {ksize : κ → Nat} {I : Ctl γ} {m : Nat} {offset : Int} {name : String} {c : γ} {t : Table V}
+    {x : Cfgr κ γ V} (hn : (names t).Nodup) (h : Cfgr.new I m offset name c t = .ok x) : Valid ksize x := by
+  unfold Cfgr.new at h
+  cases h1 : checkConfig (I.vars c) t with
+  | error e => simp [h1, Except.bind] at h
+  | ok u =>
+    cases h2 : assignAll (I.free c) t with
+    | error e => simp [h1, h2, Except.bind] at h
+    | ok u' =>
+      simp only [h1, h2, Except.bind, Except.ok.injEq] at h
+      subst h
+      exact ⟨List.nodup_nil, hn, (fun _ he => nomatch he), h1, (fun _ he => nomatch he)⟩
+
+/-- every call keeps `Valid` (the table passed is a dict: distinct names) -/
+theorem step_valid {ksize : κ → Nat} {x y : Cfgr κ γ V} {o : Op κ V} (hv : Valid ksize x)
+    (ho : ∀ k t, o = .add k t → (names t).Nodup) (h : step ksize x o = .ok y) : Valid ksize y := by
+  cases o with
+  | block =>
+    simp only [step, Except.ok.injEq] at h
+    subst h; exact ⟨hv.keysNodup, hv.defNames, hv.cfgNames, hv.defOk, hv.cfgOk⟩
+  | add k t =>
+    simp only [step] at h
+    split at h
+    · cases h
+    · rename_i hsz
+      cases h1 : checkConfig x.linked t with
+      | error e => simp [h1, Except.bind] at h
+      | ok u =>
+        simp only [h1, Except.bind, Except.ok.injEq] at h
+        subst h
+        have hsz' : ksize k = x.m := Classical.not_not.1 hsz
+        refine ⟨FF.nodup_assign hv.keysNodup, hv.defNames, ?_, hv.defOk, ?_⟩
+        · intro e he
+          rcases FF.mem_assign he with he | he
+          · subst he; exact ho k t rfl
+          · exact hv.cfgNames e he
+        · intro e he
+          rcases FF.mem_assign he with he | he
+          · subst he; exact ⟨h1, hsz'⟩
+          · exact hv.cfgOk e he
+
+
+/-! ### the round trip -/
+
+/-- Every object the constructor and `add_configuration` accept, every wire order of the states and of the
+names inside every table: the reader does not raise and returns the object with the decoded controlled
+circuit, the default-name rule, and EVERY TABLE VALUE `v` REPLACED BY `rnd v` (the 32-bit float) — the tables
+exactly in the order they were met, i.e. up to permutation.  Needed of the codec of the controlled circuit:
+it decodes (`hdec`), offers the same variables (`hvars`) and none of them holds a value (`hfree`). -/
+theorem roundtrip_configurator (I : Ctl γ) (enc : γ → δ) (dec : δ → Option γ) (rnd : V → V) (ksize : κ → Nat)
+    (x : Cfgr κ γ V) (hv : Valid ksize x) (c' : γ) (hdec : dec (enc x.ctrl) = some c')
+    (hvars : (I.vars c').Perm x.linked) (hfree : ∀ n ∈ I.vars c', n ∈ I.free c')
+    (wd : Table V) (hwd : wd.Perm x.defaultConfig) (wc : List (κ × Table V)) (hwc : CfgPerm wc x.configs) :
+    ∃ y, decCfgr I dec ksize x.m (encCfgr enc rnd x wd wc) = .ok y ∧
+      y = { expected I rnd x c' with defaultConfig := mapT rnd wd, configs := mapC rnd wc } ∧
+      Equiv y (expected I rnd x c') ∧ Valid ksize y := by
+  have hchk : ∀ t t' : Table V, t'.Perm t → checkConfig x.linked t = .ok () →
+      checkConfig (I.vars c') (mapT rnd t') = .ok () := by
+    intro t t' hp hc
+    rw [checkConfig_ok_iff] at hc ⊢
+    refine ⟨by rw [length_mapT, hp.length_eq, hc.1, hvars.length_eq], ?_⟩
+    intro n hn
+    rw [names_mapT] at hn
+    exact hvars.mem_iff.2 (hc.2 n ((hp.map Prod.fst).mem_iff.1 hn))
+  have hd1 := hchk _ _ hwd hv.defOk
+  have hd2 : assignAll (I.free c') (mapT rnd wd) = .ok () := by
+    rw [assignAll_ok_iff]; intro n hn
+    exact hfree n (((checkConfig_ok_iff _ _).1 hd1).2 n hn)
+  have hnew : Cfgr.new (κ := κ) I x.m x.offset (if x.name = "" then "FFC" else x.name) c' (mapT rnd wd)
+      = .ok ⟨x.m, x.offset, if x.name = "" then "FFC" else x.name, c', I.vars c', mapT rnd wd, [], false⟩ := by
+    simp only [Cfgr.new, hd1, hd2, Except.bind]
+  have hkeys : (keys (mapC rnd wc)).Nodup := by
+    rw [keys_mapC]; exact (hwc.keys_perm.nodup_iff).2 hv.keysNodup
+  have hall : ∀ e ∈ mapC rnd wc, checkConfig (I.vars c') e.2 = .ok () ∧ ksize e.1 = x.m := by
+    intro e he
+    obtain ⟨e0, he0, rfl⟩ := List.mem_map.1 he
+    obtain ⟨f, hf, h1, h2⟩ := hwc.left e0 he0
+    have := hv.cfgOk f hf
+    exact ⟨hchk f.2 e0.2 h2 this.1, by show ksize e0.1 = x.m; rw [h1]; exact this.2⟩
+  have hread := readAll_ok (ksize := ksize) (mapC rnd wc)
+    (⟨x.m, x.offset, if x.name = "" then "FFC" else x.name, c', I.vars c', mapT rnd wd, [], false⟩ : Cfgr κ γ V)
+    hall hkeys (fun _ _ h => nomatch h)
+  have hEq : Equiv ({ expected I rnd x c' with defaultConfig := mapT rnd wd, configs := mapC rnd wc } : Cfgr κ γ V)
+      (expected I rnd x c') :=
+    ⟨rfl, rfl, rfl, rfl, List.Perm.refl _, rfl, hwd.map _, hwc.mapC rnd⟩
+  have hValid : Valid ksize ({ expected I rnd x c' with defaultConfig := mapT rnd wd, configs := mapC rnd wc } : Cfgr κ γ V) := by
+    refine ⟨hkeys, ?_, ?_, hd1, hall⟩
+    · show (names (mapT rnd wd)).Nodup
+      rw [names_mapT]; exact ((hwd.map Prod.fst).nodup_iff).2 hv.defNames
+    · intro e he
+      obtain ⟨e0, he0, rfl⟩ := List.mem_map.1 he
+      obtain ⟨f, hf, _, h2⟩ := hwc.left e0 he0
+      show (names (mapT rnd e0.2)).Nodup
+      rw [names_mapT]; exact ((h2.map Prod.fst).nodup_iff).2 (hv.cfgNames f hf)
+  refine ⟨_, ?_, rfl, hEq, hValid⟩
+  have h1 : decCfgr I dec ksize x.m (encCfgr enc rnd x wd wc)
+      = (Cfgr.new (κ := κ) I x.m x.offset (if x.name = "" then "FFC" else x.name) c' (mapT rnd wd)).bind fun x0 =>
+          (readAll ksize x0 (mapC rnd wc)).bind fun x1 =>
+            .ok (if x.blocked then { x1 with blocked := true } else x1) := by
+    simp only [decCfgr, encCfgr, hdec]
+    rfl
+  rw [h1, hnew]
+  simp only [Except.bind]
+  rw [hread]
+  rcases Bool.eq_false_or_eq_true x.blocked with hb | hb <;> simp [expected, hb]
+
+/-- The rebuilt object IS the original one (up to the order of its dicts; decoded circuit, default-name
+rule) iff every value of its tables is a fixed point of `rnd`, i.e. exactly representable as a 32-bit float. -/
+theorem roundtrip_configurator_exact_iff (I : Ctl γ) (enc : γ → δ) (dec : δ → Option γ) (rnd : V → V)
+    (ksize : κ → Nat) (x : Cfgr κ γ V) (hv : Valid ksize x) (c' : γ) (hdec : dec (enc x.ctrl) = some c')
+    (hvars : (I.vars c').Perm x.linked) (hfree : ∀ n ∈ I.vars c', n ∈ I.free c')
+    (wd : Table V) (hwd : wd.Perm x.defaultConfig) (wc : List (κ × Table V)) (hwc : CfgPerm wc x.configs)
+    (y : Cfgr κ γ V) (hy : decCfgr I dec ksize x.m (encCfgr enc rnd x wd wc) = .ok y) :
+    Equiv y (expected I (fun v => v) x c') ↔ AllValues (fun v => rnd v = v) x := by
+  obtain ⟨y', hy', hyeq, hE, _⟩ := roundtrip_configurator I enc dec rnd ksize x hv c' hdec hvars hfree wd hwd wc hwc
+  rw [hy] at hy'
+  cases hy'
+  constructor
+  · intro h
+    have hD : (mapT rnd wd).Perm x.defaultConfig := by
+      have := h.defaultConfig
+      rw [hyeq] at this
+      simpa [expected, mapT_id] using this
+    have hC : CfgPerm (mapC rnd wc) x.configs := by
+      have := h.configs
+      rw [hyeq] at this
+      simpa [expected, mapC_id] using this
+    refine ⟨?_, ?_⟩
+    · have hfix := fixed_of_mapT_perm (rnd := rnd) (t := wd)
+        (((hwd.map Prod.fst).nodup_iff).2 hv.defNames) (hD.trans hwd.symm)
+      intro e he
+      exact hfix e (hwd.mem_iff.2 he)
+    · intro c hc e he
+      obtain ⟨e0, he0, hk, hp⟩ := hwc.right c hc
+      have hmem : (e0.1, mapT rnd e0.2) ∈ mapC rnd wc := List.mem_map.2 ⟨e0, he0, rfl⟩
+      obtain ⟨f, hf, hk', hp'⟩ := hC.left _ hmem
+      have hfc : f = c := by
+        have h1 : (c.1, f.2) ∈ x.configs := by
+          have : f = (c.1, f.2) := by rw [← hk, hk']
+          rw [← this]; exact hf
+        have h2 : (c.1, c.2) ∈ x.configs := hc
+        have := eq_of_mem_of_nodup hv.keysNodup h1 h2
+        exact Prod.ext (by rw [← hk', ← hk]) this
+      subst hfc
+      have hfix := fixed_of_mapT_perm (rnd := rnd) (t := e0.2)
+        (((hp.map Prod.fst).nodup_iff).2 (hv.cfgNames f hf)) (hp'.trans hp.symm)
+      exact hfix e (hp.mem_iff.2 he)
+  · intro h
+    have h1 : mapT rnd x.defaultConfig = x.defaultConfig := by
+      have := mapT_congr (f := rnd) (g := fun v => v) (t := x.defaultConfig) fun e he => h.1 e he
+      rw [this, mapT_id]
+    have h2 : mapC rnd x.configs = x.configs := by
+      have := mapC_congr (f := rnd) (g := fun v => v) (l := x.configs) fun c hc e he => h.2 c hc e he
+      rw [this, mapC_id]
+    have : expected I (fun v => v) x c' = expected I rnd x c' := by
+      simp only [expected, mapT_id, mapC_id, h1, h2]
+    rw [this]; exact hE
+
+/-- With `rnd` idempotent (a 32-bit float converts to itself) a SECOND round trip is exact: it returns the
+object the first one returned.  (`hdec2`: the codec of the controlled circuit is stable on what it decoded.) -/
+theorem roundtrip_configurator_second (I : Ctl γ) (enc : γ → δ) (dec : δ → Option γ) (rnd : V → V)
+    (hidem : ∀ v, rnd (rnd v) = rnd v)
+    (ksize : κ → Nat) (x : Cfgr κ γ V) (hv : Valid ksize x) (c' : γ) (hdec : dec (enc x.ctrl) = some c')
+    (hvars : (I.vars c').Perm x.linked) (hfree : ∀ n ∈ I.vars c', n ∈ I.free c')
+    (wd : Table V) (hwd : wd.Perm x.defaultConfig) (wc : List (κ × Table V)) (hwc : CfgPerm wc x.configs)
+    (y : Cfgr κ γ V) (hy : decCfgr I dec ksize x.m (encCfgr enc rnd x wd wc) = .ok y)
+    (hdec2 : dec (enc c') = some c')
+    (wd2 : Table V) (hwd2 : wd2.Perm y.defaultConfig) (wc2 : List (κ × Table V)) (hwc2 : CfgPerm wc2 y.configs) :
+    ∃ z, decCfgr I dec ksize y.m (encCfgr enc rnd y wd2 wc2) = .ok z ∧ Equiv z y := by
+  obtain ⟨y', hy', hyeq, _, hvy⟩ := roundtrip_configurator I enc dec rnd ksize x hv c' hdec hvars hfree wd hwd wc hwc
+  rw [hy] at hy'
+  cases hy'
+  have hctrl : y.ctrl = c' := by rw [hyeq]; rfl
+  have hlinked : y.linked = I.vars c' := by rw [hyeq]; rfl
+  have hname : y.name ≠ "" := by
+    have : y.name = if x.name = "" then "FFC" else x.name := by rw [hyeq]; rfl
+    rw [this]; split
+    · decide
+    · assumption
+  have hdec' : dec (enc y.ctrl) = some c' := by rw [hctrl]; exact hdec2
+  have hvars' : (I.vars c').Perm y.linked := by rw [hlinked]
+  obtain ⟨z, hz, _, _, _⟩ := roundtrip_configurator I enc dec rnd ksize y hvy c' hdec' hvars' hfree wd2 hwd2 wc2 hwc2
+  refine ⟨z, hz, ?_⟩
+  have hfix : AllValues (fun v => rnd v = v) y := by
+    rw [hyeq]
+    refine ⟨?_, ?_⟩
+    · intro e he
+      obtain ⟨e0, _, rfl⟩ := List.mem_map.1 he
+      exact hidem _
+    · intro c hc e he
+      obtain ⟨c0, _, rfl⟩ := List.mem_map.1 hc
+      obtain ⟨e0, _, rfl⟩ := List.mem_map.1 he
+      exact hidem _
+  have := (roundtrip_configurator_exact_iff I enc dec rnd ksize y hvy c' hdec' hvars' hfree wd2 hwd2 wc2 hwc2 z hz).2 hfix
+  have hexp : expected I (fun v => v) y c' = y := by
+    have h1 : (if y.name = "" then "FFC" else y.name) = y.name := if_neg hname
+    cases y
+    simp only [expected, mapT_id, mapC_id] at *
+    simp only [h1, hctrl, hlinked]
+  rw [hexp] at this
+  exact this
+
+/-! ### the `KeyError` boundary -/
+
+/-- A linked variable of the decoded controlled circuit that holds a value (`n ∈ vars c'`, `n ∉ free c'`):
+`_check_configuration` passes — `vars` lists it — but the constructor's `copy().assign(default_config)`
+raises `KeyError`, whatever the wire order and the values.  (The codec preserves the value: the writer stores
+`Parameter(name, value)` with its symbol, the reader rebuilds a variable that holds the value.) -/
+theorem reader_keyerror (I : Ctl γ) (enc : γ → δ) (dec : δ → Option γ) (rnd : V → V) (ksize : κ → Nat)
+    (x : Cfgr κ γ V) (hv : Valid ksize x) (c' : γ) (hdec : dec (enc x.ctrl) = some c')
+    (hvars : (I.vars c').Perm x.linked) (hval : ∃ n ∈ I.vars c', n ∉ I.free c')
+    (wd : Table V) (hwd : wd.Perm x.defaultConfig) (wc : List (κ × Table V)) :
+    ∃ n, n ∈ I.vars c' ∧ n ∉ I.free c' ∧
+      decCfgr I dec ksize x.m (encCfgr enc rnd x wd wc) = .error (.key n) := by
+  have hc := (checkConfig_ok_iff _ _).1 hv.defOk
+  have hd1 : checkConfig (I.vars c') (mapT rnd wd) = .ok () := by
+    rw [checkConfig_ok_iff]
+    refine ⟨by rw [length_mapT, hwd.length_eq, hc.1, hvars.length_eq], ?_⟩
+    intro n hn
+    rw [names_mapT] at hn
+    exact hvars.mem_iff.2 (hc.2 n ((hwd.map Prod.fst).mem_iff.1 hn))
+  -- the names of the default table cover the linked variables (same length, no repetition)
+  have hcover : ∀ n ∈ x.linked, n ∈ names x.defaultConfig :=
+    subset_of_nodup_of_length_le hv.defNames hc.2 (by simp [names, hc.1])
+  obtain ⟨n, hn, hnf⟩ := hval
+  have hbad : ∃ n ∈ names (mapT rnd wd), n ∉ I.free c' := by
+    refine ⟨n, ?_, hnf⟩
+    rw [names_mapT]
+    exact (hwd.map Prod.fst).mem_iff.2 (hcover n (hvars.mem_iff.1 hn))
+  obtain ⟨n', hn', hnf', herr⟩ := assignAll_error hbad
+  refine ⟨n', ?_, hnf', ?_⟩
+  · rw [names_mapT] at hn'
+    exact hvars.mem_iff.2 (hc.2 n' ((hwd.map Prod.fst).mem_iff.1 hn'))
+  · simp only [decCfgr, encCfgr, hdec, Cfgr.new, hd1, herr, Except.bind]
+
+/-- the concrete witness: `FFConfigurator(2, 0, circuit(a, b), {a: 1, b: 2})`, one configured state, then
+`b.set_value(3)` on the shared Parameter -/
+def witValued : Cfgr Nat (VarList Nat) Nat :=
+  ⟨2, 0, "FFC", setValue "b" (some 3) [("a", none), ("b", none)], ["a", "b"], [("a", 1), ("b", 2)],
+    [(10, [("b", 5), ("a", 4)])], false⟩
+
+/-- it was accepted by the constructor and `add_configuration` … -/
+example : ((Cfgr.new varCtl 2 0 "FFC" [("a", none), ("b", none)] [("a", 1), ("b", 2)]).bind fun x =>
+    (step (fun _ => 2) x (.add 10 [("b", 5), ("a", 4)])).map fun y =>
+      { y with ctrl := setValue "b" (some 3) y.ctrl }) = .ok witValued := rfl
+
+/-- … the writer's message is read back with `KeyError('b')` (identity codec: the variable and its value are
+preserved), … -/
+theorem reader_keyerror_witness :
+    decCfgr (δ := VarList Nat) varCtl some (fun _ => 2) 2
+      (encCfgr id id witValued witValued.defaultConfig witValued.configs) = .error (.key "b") := rfl
+
+/-- … and the original object is itself half-broken in that state: `configure` of the mapped state raises the
+same `KeyError`, an unmapped state still gets the default circuit built by the constructor. -/
+theorem original_configure_witness :
+    configureOk varCtl witValued 10 = .error (.key "b") ∧ configureOk varCtl witValued 11 = .ok () := ⟨rfl, rfl⟩
+
+/-- the same object without the value -/
+def witFree : Cfgr Nat (VarList Nat) Nat := { witValued with ctrl := [("a", none), ("b", none)] }
+
+/-- … makes the trip -/
+example : (decCfgr (δ := VarList Nat) varCtl some (fun _ => 2) 2
+    (encCfgr id id witFree witFree.defaultConfig witFree.configs)).toOption.map (fun y => (y.defaultConfig, y.configs))
+    = some (witFree.defaultConfig, witFree.configs) := rfl
+
+end PM.C15.FFC
